@@ -1411,6 +1411,9 @@ def symbolic_map(interp, it, gen, node, env, keep_and_val, kind):
         oc = ordered_complement(interp, it, gen, node, env, kind)
         if oc is not None:
             return oc
+        oc = drop_index(interp, it, gen, node, env, kind)
+        if oc is not None:
+            return oc
         if not getattr(interp, 'overapprox_filters', False):
             raise Unsupported('filtered comprehension over a symbolic sequence at %s' % interp.where(node))
         # sound over-approximation (havoc): some list no longer than the source; contents unconstrained
@@ -1430,6 +1433,45 @@ def symbolic_map(interp, it, gen, node, env, keep_and_val, kind):
         sym_exhaust(it)
         return Seq(arr, ln, kind, 'Fresh')
     return drain(interp, MapIter(it, keep_and_val), kind, node)
+
+
+def drop_index(interp, it, gen, node, env, kind):
+    """[v for i, v in enumerate(seq) if i != c]  (the "all cells but one" idiom), c not depending on i, v: the elements of
+    seq in order with position c left out (nothing left out when c is not a position of seq) -- exact (T6)."""
+    if not (isinstance(it, ZipIter) and not it.longest and len(it.inners) == 2 and isinstance(it.inners[0], CountIter)
+            and isinstance(it.inners[1], SrcIter) and it.inners[1].arr is not None and len(gen.ifs) == 1
+            and isinstance(gen.target, ast.Tuple) and len(gen.target.elts) == 2 and all(isinstance(e, ast.Name) for e in gen.target.elts)
+            and isinstance(getattr(node, 'elt', None), ast.Name) and node.elt.id == gen.target.elts[1].id):
+        return None
+    cnt, src = it.inners
+    if not (is_conc_int(cnt.cur) and cnt.cur == 0 and is_conc_int(cnt.step) and cnt.step == 1):
+        return None
+    iname, vname = gen.target.elts[0].id, gen.target.elts[1].id
+    c = gen.ifs[0]
+    if not (isinstance(c, ast.Compare) and len(c.ops) == 1 and isinstance(c.ops[0], ast.NotEq)):
+        return None
+    l, r = c.left, c.comparators[0]
+    if isinstance(l, ast.Name) and l.id == iname:
+        other = r
+    elif isinstance(r, ast.Name) and r.id == iname:
+        other = l
+    else:
+        return None
+    if any(isinstance(n, ast.Name) and n.id in (iname, vname) for n in ast.walk(other)):
+        return None
+    cv = interp.eval(other, env)
+    if not isinstance(cv, (int, SInt)) or isinstance(cv, bool):
+        return None
+    ct = to_int(cv)
+    n = z3.simplify(src.n - src.pos)
+    inside = z3.And(0 <= ct, ct < n)
+    ln = z3.If(inside, n - 1, n)
+    arr = smt.fresh_arr('dropped')
+    q = smt.fresh_int('q')
+    emit(z3.ForAll([q], z3.Implies(z3.And(0 <= q, q < ln),
+                                   z3.Select(arr, q) == z3.Select(src.arr, src.pos + z3.If(z3.And(inside, q >= ct), q + 1, q)))))
+    sym_exhaust(src)
+    return Seq(arr, z3.simplify(ln), kind, 'Fresh')
 
 
 def ordered_complement(interp, it, gen, node, env, kind):
